@@ -4,3 +4,17 @@ open ZCV.Props.C04
 #print axioms C04_no_dollar_id
 #print axioms C04_isname_spec
 #print axioms C04_missing_carries_source
+#print axioms C04_one_construct
+#print axioms C04_fates
+#print axioms C04_replaced
+#print axioms C04_dollar_dollar
+#print axioms C04_case
+#print axioms C04_no_rescan
+#print axioms C04_no_rescan_braces
+#print axioms C04_no_rescan_env
+#print axioms C04_maximal_name
+#print axioms C04_malformed
+#print axioms C04_syntax_error_iff
+#print axioms C04_malformed_iff
+#print axioms C04_missing_first
+#print axioms C04_missing_carries_name
